@@ -7,8 +7,10 @@ for operation (file `num-complex-0.4.6/src/lib.rs`, line numbers in the comments
 Lean's `Float` is the platform `double`: `+ - * /` and `sqrt` are correctly rounded, so the results of
 `add sub mul div neg` (and `sqrt` on the real axis) are bit-identical to Rust's.  `sin cos sinh cosh exp
 log atan2` go through the C library on both sides and normally agree bit for bit as well; `hypot` is not
-exposed by Lean and is emulated (`hypot` below), so everything that passes through `norm` (`powc`, the
-general branch of `sqrt`) is compared with a relative tolerance (`CFloat.close`).
+exposed by Lean's `Float` API and is bound to the C library's `hypot` with `@[extern]` (the function Rust's
+`f64::hypot` calls), so `norm`, `powc` and the general branch of `sqrt` agree bit for bit too in practice
+(C13 measured 100 % bit-identical results); `CFloat.close` offers a relative tolerance for users that want
+to be robust against libm differences.
 
 `CFloat` satisfies no algebraic laws (rounding): theorems are never stated about it; it only executes the
 models in the correspondence check.  Import-free apart from `QV.Shared.Expr`.
@@ -43,7 +45,12 @@ def div (a b : CFloat) : CFloat :=
   let r := a.1 * b.1 + a.2 * b.2
   let i := a.2 * b.1 - a.1 * b.2
   (r / n, i / n)
-def neg (a : CFloat) : CFloat := (-a.1, -a.2)
+/-- `negate(value) = Complex64::new(0f64, 0f64) - value` (quil-rs expression/mod.rs:424, since /repo commit
+a634ce0): what prefix minus evaluates to.  Unlike IEEE negation it never produces a negative zero
+(`neg (1,0) = (-1, +0)`), so it does not move a real number across the branch cut of `sqrt` / `^`. -/
+def neg (a : CFloat) : CFloat := (0.0 - a.1, 0.0 - a.2)
+/-- IEEE sign flip of both components (`-value` on `Complex64`), for models that need it. -/
+def negIEEE (a : CFloat) : CFloat := (-a.1, -a.2)
 
 /-- C `hypot` from the platform libm — the very function Rust's `f64::hypot` calls (Lean's `Float` API does
 not expose it, so it is bound here; compiled code only, the interpreter cannot evaluate it).  No theorem
